@@ -47,11 +47,11 @@ class Runner:
         self.touched = set()
         self.removed_at = {}      # key -> number of calls made when it was removed in-run
         self.readded = set()
-        # SystemAction.run re-checks the live registry before every action
-        # ("May be removed by a previous action"): an action removed before
-        # its turn must not run.  ServerAction.run / NotificationCenter.notify
-        # iterate a snapshot without re-check; left open there (counted).
-        self.strict_removed = label in ('SystemAction', 'CmdPeriod')
+        # "run exactly the actions currently registered": an action / listener
+        # removed by an earlier action of the same run (before its own turn)
+        # must not run afterwards - all registries re-check the live registry
+        # ("May be removed by a previous action").  Added during a run: open.
+        self.strict_removed = True
         self.seq = 0
         self.feat = {'runs': 0, 'removes': 0, 'remove_then_run': False,
                      'max_actions': 0, 'in_run_ops': 0}
@@ -307,19 +307,29 @@ def run_server(acc, rng, case):
         elif name == 'remove':
             _, b, n = op
             key = (bk(b), n)
+            was = bk(b) in buckets and key in buckets[bk(b)].entries
             cls.remove(b, funcs[key])
             if bk(b) in buckets:
                 buckets[bk(b)].remove(key)
             R.feat['removes'] += 1
             R._removed_since_run = True
-            if inside:
+            if inside and was:
                 R.touched.add(key)
                 R.removed_at.setdefault(key, len(R.calls))
         elif name == 'remove_server':
+            if inside and bk(op[1]) in buckets:
+                for k in buckets[bk(op[1])].entries:
+                    R.touched.add(k)
+                    R.removed_at.setdefault(k, len(R.calls))
             cls.remove_server(op[1])
             buckets.pop(bk(op[1]), None)
             R._removed_since_run = True
         elif name == 'remove_all':
+            if inside:
+                for b_ in buckets.values():
+                    for k in b_.entries:
+                        R.touched.add(k)
+                        R.removed_at.setdefault(k, len(R.calls))
             cls.remove_all()
             buckets.clear()
             R._removed_since_run = True
@@ -374,8 +384,13 @@ def run_server(acc, rng, case):
                 if rng.random() < 0.15:
                     target = holder
                 b = next(x for x in bucket_keys if bk(x) == target[0])
-                if rng.random() < 0.7:
+                v = rng.random()
+                if v < 0.62:
                     R.armed[holder] = ('remove', b, target[1])
+                elif v < 0.72:
+                    R.armed[holder] = ('remove_server', b)
+                elif v < 0.78:
+                    R.armed[holder] = ('remove_all',)
                 else:
                     R.armed[holder] = ('add', b, next_n, [], {}); next_n += 1
                 R.log.append(['arm', repr(holder), [repr(x) for x in R.armed[holder]]])
@@ -435,14 +450,24 @@ def run_notify(acc, rng, case):
             _, o, m, l = op
             if inside:
                 b = regs.get((id(o), m))
-                e = b.entries.get((id(o), m, id(l))) if b else None
-                if e is None or e['once']:
-                    return                 # no longer applicable
+                if l is not None:
+                    e = b.entries.get((id(o), m, id(l))) if b else None
+                    if e is None or e['once']:
+                        return                 # no longer applicable
+                elif b is None or any(e['once'] for e in b.entries.values()):
+                    # (a one-shot listener unregisters itself after its action:
+                    # taking it away underneath is outside the generated domain)
+                    return
+            if inside and l is None:
+                for k in regs[(id(o), m)].entries:
+                    R.touched.add(k)
+                    R.removed_at.setdefault(k, len(R.calls))
             NC.unregister(o, m, l)
             if l is not None:
                 regs[(id(o), m)].remove((id(o), m, id(l)))
                 if inside:
                     R.touched.add((id(o), m, id(l)))
+                    R.removed_at.setdefault((id(o), m, id(l)), len(R.calls))
             elif m is not None:
                 regs.pop((id(o), m), None)
             else:
@@ -502,9 +527,16 @@ def run_notify(acc, rng, case):
                 same = [k for k in keys if k[:2] == holder[:2] and k != holder
                         and not regs[k[:2]].entries[k]['once']]
                 if same and not regs[holder[:2]].entries[holder]['once']:
-                    t = rng.choice(same)
-                    R.armed[holder] = ('unregister', by_id[t[0]], t[1], by_id[t[2]])
-                    R.log.append(['arm', repr(holder), 'unregister', repr(t)])
+                    # a listener that, while notified, unregisters a later /
+                    # an earlier listener, itself, or the whole message
+                    v = rng.random()
+                    t = holder if v < 0.12 else rng.choice(same)
+                    if v > 0.88:
+                        R.armed[holder] = ('unregister', by_id[t[0]], t[1], None)
+                    else:
+                        R.armed[holder] = ('unregister', by_id[t[0]], t[1], by_id[t[2]])
+                    R.log.append(['arm', repr(holder), 'unregister',
+                                  repr(t) if v <= 0.88 else 'whole message'])
             elif r < 0.72:
                 R.guarded('registration_exists', exists_check)
             else:
